@@ -10,6 +10,7 @@ from . import logic as L
 from . import spec
 from . import sym
 from .absunits import KindFactory, SymQ, SymUnit
+from .sym import EngineError
 
 UNIT_CLASS_NAMES = set(spec.KINDS) | {"UnitBase"}
 
@@ -94,9 +95,25 @@ def kind(q):
 EXPECTED_ERRORS = (TypeError, ValueError, KeyError, ZeroDivisionError, AttributeError, NameError, IndexError)
 
 
+# An exception CPython itself raises because a proxy object lacks a protocol (``'SymRange' object is not reversible``,
+# ``unsupported operand type(s) for +: 'SymNum' and 'str'``) names the proxy class in quotes.  That is a limit of the
+# verifier, not behaviour of the code: it must end as an engine problem (exit 3), never as a refuted obligation.
+_PROXY_NAMES = ("AbsMotorControl", "AbsPowertrain", "AbsRule", "AbsStop", "ElemRef", "ExternalTorque", "Interp", "RecFrame",
+                "RecordedSeries", "ShadowFloat", "SymArange", "SymBool", "SymNum", "SymQ", "SymRange", "SymTimeList", "SymTuple",
+                "SymUnit", "TimeVariables", "_Callable", "_Iter", "_KindClass", "_Loc", "_OS", "_PD", "_Take", "_Union",
+                "_ShadowFloatMeta", "PTStandIn", "Mate", "BoolRef", "ArithRef", "ExprRef")
+
+
+def proxy_caused(e):
+    msg = str(e)
+    return any(f"'{n}'" in msg for n in _PROXY_NAMES)
+
+
 def call(fn, *a, **k):
     """-> ('ok', result) | ('raise', exception)"""
     try:
         return "ok", fn(*a, **k)
     except EXPECTED_ERRORS as e:
+        if proxy_caused(e):
+            raise EngineError(f"a verifier proxy does not support an operation the code uses: {type(e).__name__}: {e}") from e
         return "raise", e
